@@ -134,6 +134,9 @@ func (obj *SparseIntVector) SET(x *SparseIntVector) {
   }
 }
 func (obj *SparseIntVector) SLICE(i, j int) *SparseIntVector {
+  if i < 0 || i > j || j > obj.n {
+    panic(fmt.Errorf("slice (%d:%d) out of bounds for vector of dimension %d", i, j, obj.n))
+  }
   r := nilSparseIntVector(j-i)
   for it := obj.indexIteratorFrom(i); it.Ok(); it.Next() {
     if it.Get() >= j {
